@@ -39,9 +39,52 @@ type c19Sys struct {
 	ctl     *k8s.SecretController
 	ref     map[string]string // secret name -> last non-empty value reconciled while not deleting
 	initial []string
+	// the long-lived service objects (ExtAuthZFilter, TLS pool, key source, store factory) over the same configuration
+	// object, assembled when the first request arrives
+	sw      *world.SWorld
+	fspecs  []world.FilterSpec
+	checked []bool // filters that have served a request (a cached handler would date from then)
 }
 
-func (s *c19Sys) Close() {}
+func (s *c19Sys) Close() {
+	if s.sw != nil {
+		s.sw.Close()
+	}
+}
+
+func (s *c19Sys) service() *world.SWorld {
+	if s.sw == nil {
+		for i := range s.filters {
+			s.fspecs = append(s.fspecs, world.FilterSpec{Name: fmt.Sprintf("c%d", i), Realm: fmt.Sprintf("idp%d.test", i), ClientID: world.DefaultClientID})
+		}
+		sw, err := world.NewSWorldOnConfig(s.cfg, s.fspecs)
+		if err != nil {
+			panic(err)
+		}
+		s.sw = sw
+		for i := range s.filters {
+			i := i
+			// each filter's provider knows the client secret the reference says the filter has NOW
+			sw.Realms[s.fspecs[i].Realm].Secret = func() string { return c19Want(s, s.spec, i) }
+		}
+		s.checked = make([]bool, len(s.filters))
+	}
+	return s.sw
+}
+
+// tokenAuthHeader performs one login at filter i through the long-lived ExtAuthZFilter and returns the Authorization
+// header its token request carried ("" when no token request was made).
+func (s *c19Sys) tokenAuthHeader(i int) string {
+	sw := s.service()
+	realm := s.fspecs[i].Realm
+	n0 := sw.TokenRequests(realm)
+	_, _, _ = sw.Login(s.fspecs[i])
+	s.checked[i] = true
+	if sw.TokenRequests(realm) == n0 {
+		return ""
+	}
+	return sw.LastTokenAuthorization(realm)
+}
 
 func c19Filter(i int, src string) *oidcv1.OIDCConfig {
 	o := &oidcv1.OIDCConfig{
@@ -135,6 +178,10 @@ func c19Model(run *ev.Run, spec c19Spec) seqx.Model {
 		evs = append(evs, seqx.Event{Kind: "mark-deleting", Who: o[0], Arg: o[1]}, seqx.Event{Kind: "delete", Who: o[0], Arg: o[1]},
 			seqx.Event{Kind: "reconcile", Who: o[0], Arg: o[1]})
 	}
+	// a request served by filter i (no cookie: a login redirect) - whatever the service keeps per filter dates from here
+	for i := range spec.Sources {
+		evs = append(evs, seqx.Event{Kind: "check", N: i})
+	}
 	return seqx.Model{
 		New: func() seqx.Sys {
 			s, err := newC19Sys(spec)
@@ -148,6 +195,11 @@ func c19Model(run *ev.Run, spec c19Spec) seqx.Model {
 			ctx := context.Background()
 			ns, name := e.Who, e.Arg
 			switch e.Kind {
+			case "check":
+				sw := s.service()
+				f := s.fspecs[e.N]
+				sw.Do(world.SReq{Tenant: f.Name, Path: "/" + f.Name + "/app"})
+				s.checked[e.N] = true
 			case "put":
 				data := map[string][]byte{"other-key": []byte("z")}
 				switch e.Arg2 {
@@ -228,7 +280,7 @@ func c19Model(run *ev.Run, spec c19Spec) seqx.Model {
 					if f.GetClientSecret() == "" {
 						continue
 					}
-					if hdr := c19TokenAuthHeader(f); hdr != "" {
+					if hdr := s.tokenAuthHeader(i); hdr != "" {
 						want := "Basic " + base64.StdEncoding.EncodeToString([]byte(f.GetClientId()+":"+c19Want(s, spec, i)))
 						if hdr != want {
 							run.Violation("C19 token-request-uses-stale-secret", fmt.Sprintf("filter %d: Authorization at the token endpoint is not Basic(client_id:%q)", i, c19Want(s, spec, i)), full)
@@ -254,7 +306,11 @@ func c19Model(run *ev.Run, spec c19Spec) seqx.Model {
 			sort.Strings(ks)
 			// private state of the controller (plain-data fields, by reflection): a state abstraction that ignored
 			// it would merge states with different futures
-			return sb.String() + "|" + strings.Join(ks, ",") + "|ctl:" + hidden.Dump(s.ctl, "log", "config", "restConf", "manager", "k8sClient", "namespace")
+			svc := "|svc:{}"
+			if s.sw != nil {
+				svc = "|svc:" + hidden.Dump(s.sw.Check, "log", "cfg", "tlsPool", "jwks", "sessions")
+			}
+			return sb.String() + "|" + strings.Join(ks, ",") + "|ctl:" + hidden.Dump(s.ctl, "log", "config", "restConf", "manager", "k8sClient", "namespace") + svc
 		},
 	}
 }
